@@ -277,13 +277,23 @@ impl Epoch {
                     prime_epoch_offset + delta_tdb_tai - ts.prime_epoch_offset()
                 }
                 TimeScale::UTC => {
-                    // Assume it's TAI
-                    let epoch = Self {
-                        duration: prime_epoch_offset,
-                        time_scale: TimeScale::TAI,
-                    };
                     // TAI = UTC + leap_seconds <=> UTC = TAI - leap_seconds
-                    prime_epoch_offset - epoch.leap_seconds(true).unwrap_or(0.0).seconds()
+                    // The leap second table is indexed by UTC timestamps: on the TAI time line, an entry
+                    // takes effect at its timestamp plus the leap seconds accumulated before it.
+                    let mut delta_at = Duration::ZERO;
+                    let mut prev_delta_at = Duration::ZERO;
+                    for leap_second in LatestLeapSeconds::default()
+                        .filter(|leap_second| leap_second.announced_by_iers)
+                    {
+                        if prime_epoch_offset
+                            < leap_second.timestamp_tai_s.seconds() + prev_delta_at
+                        {
+                            break;
+                        }
+                        delta_at = leap_second.delta_at.seconds();
+                        prev_delta_at = delta_at;
+                    }
+                    prime_epoch_offset - delta_at
                 }
                 TimeScale::GPST => prime_epoch_offset - GPST_REF_EPOCH.to_tai_duration(),
                 TimeScale::GST => prime_epoch_offset - GST_REF_EPOCH.to_tai_duration(),
